@@ -2,15 +2,15 @@ SPECIFICATION Spec
 CONSTANTS
   Mode = "match"
   BsIds = {1, 2, 3}
-  MaxMeas = 3
-  Deltas <- DeltasQuick
-  Diffs = {0, 1}
-  MinBs = {0, 1, 2}
+  MaxMeas = 5
+  Deltas <- DeltasThorough
+  Diffs = {1, 2}
+  MinBs = {0, 2}
   MaxSamples = 0
   SampleSets <- NoSampleSets
   MaxOutliers = 0
   Bug = "none"
-  PrintCases = TRUE
+  PrintCases = FALSE
 INVARIANT MatchOK
 INVARIANT EstOK
 INVARIANT PipeMin2AllLinking
